@@ -269,9 +269,29 @@ def one_workbook(ctx, spec, meta, order, config='mem', rng=None):
             ctx.violation(k, msg, case)
 
 
+def range_operator_workbook():
+    """the range operator between two written references, one of them in parentheses: the rectangle it names covers
+    cells that neither operand holds"""
+    grid = {f'{"ABC"[c]}{r + 1}': 3 * r + c + 1 for r in range(3) for c in range(3)}
+    whole = [f'Sheet1!{a}' for a in grid]
+    formulas = {'E1': '=SUM((A1:B2):C3)', 'E2': '=SUM((C3):A1)', 'E3': '=SUM((A1):B2)+C3', 'E4': '=MAX(($A$1:$A$2):$C$1)'}
+    deps = {'E1': whole, 'E2': whole, 'E3': ['Sheet1!A1', 'Sheet1!B1', 'Sheet1!A2', 'Sheet1!B2', 'Sheet1!C3'],
+            'E4': ['Sheet1!A1', 'Sheet1!B1', 'Sheet1!C1', 'Sheet1!A2', 'Sheet1!B2', 'Sheet1!C2']}
+    spec = {'sheets': [['Sheet1', dict(grid, **formulas)]], 'names': {}, 'arrays': [], 'calc': None}
+    meta = {'inputs': whole, 'formulas': {f'Sheet1!{a}': {'form': 'range-operator', 'deps': deps[a]} for a in formulas},
+            'order': whole + [f'Sheet1!{a}' for a in formulas]}
+    return spec, meta
+
+
 def run(ctx):
     rng = ctx.rng
     i = 0
+    if ctx.shard == 0:
+        import random
+        spec, meta = range_operator_workbook()
+        for order in (meta['order'], list(reversed(meta['order']))):
+            ctx.count('directed:range-operator')
+            one_workbook(ctx, spec, meta, order, config='mem', rng=random.Random(1))
     # read traces of the workbooks shipped with the repository
     realbooks.run_cases(ctx, realbooks.c04_case, realbooks.acyclic_books(), 6 if ctx.quick else 60, fraction=0.3)
     while not ctx.out_of_time():
